@@ -49,11 +49,14 @@ def split_histories(path, nshards, outdir, tag):
     return paths, n
 
 def run_one(args):
-    seqrun, shard = args
+    seqrun, shard, mode = args
     outs = {}
-    for name, cmd in (('model', [common.MODEL, 'seq', shard]), ('spec', [common.MODEL, 'spec', shard]), ('impl', [seqrun, shard])):
+    cmds = (('model', [common.MODEL, 'seq', shard]), ('spec', [common.MODEL, 'spec', shard]), ('impl', [seqrun, shard])) if mode == 'seq' else \
+           (('model', [common.MODEL, 'aseq', shard]), ('impl', [seqrun, shard]))
+    for name, cmd in cmds:
         p = subprocess.run(cmd, stdout=subprocess.PIPE, stderr=subprocess.PIPE, text=True, errors='replace')
         outs[name] = (p.returncode, p.stdout, p.stderr[-2000:])
+    if 'spec' not in outs: outs['spec'] = (0, None, '')
     return shard, outs
 
 def parse_hist(path):
@@ -90,13 +93,16 @@ class Stats:
             'slice_grants_crossing_the_physical_end': self.seam, 'owned_item_histories': self.owned_hist,
         }
 
-def compare_shard(suite, shard, outs, stats, divs, maxdiv=200, collect=None):
+def compare_shard(suite, shard, outs, stats, divs, maxdiv=200, collect=None, satlog=None):
     hs = parse_hist(shard)
     if outs['model'][0] != 0 or outs['spec'][0] != 0:
         raise RuntimeError('model driver failed: ' + outs['model'][2] + outs['spec'][2])
-    ml = outs['model'][1].split('\n'); il = outs['impl'][1].split('\n'); sl = outs['spec'][1].split('\n')
+    ml = outs['model'][1].split('\n'); il = outs['impl'][1].split('\n')
+    nospec = outs['spec'][1] is None
+    sl = [] if nospec else outs['spec'][1].split('\n')
     mi = ii = si = 0
     def nxt(arr, i):
+        if arr is sl and nospec: return '! -', i + 1
         return (arr[i] if i < len(arr) else '<missing: implementation output ends here (crash / abort)>'), i + 1
     for header, cfg, ops in hs:
         stats.histories += 1
@@ -118,7 +124,11 @@ def compare_shard(suite, shard, outs, stats, divs, maxdiv=200, collect=None):
         if collect is not None: collect.append((header, cfg, ops, got))
         for idx in range(-1, len(ops)):
             m, mi = nxt(ml, mi); i, ii = nxt(il, ii); s, si = nxt(sl, si)
+            sat = None
+            if ' ## ' in m:
+                m, sat = m.split(' ## ', 1); sat = sat.replace('sat=', '')
             got.append(i)
+            if sat is not None and satlog is not None: satlog.append((header, cfg, ops, idx, sat, i))
             if idx >= 0:
                 stats.steps += 1
                 opn = ops[idx].split()[0]
@@ -135,6 +145,10 @@ def compare_shard(suite, shard, outs, stats, divs, maxdiv=200, collect=None):
             if m != i and not broken:
                 broken = True
                 if len(divs) < maxdiv: divs.append(Div(suite, header, cfg, ops, idx, 'tie', m, i))
+            if nospec and m != i and nspec < 6 and not i.startswith('<missing'):
+                # async suite: the model line is one synchronous attempt (proved); every departure is a failing input
+                nspec += 1
+                if len(divs) < maxdiv * 4: divs.append(Div(suite, header, cfg, ops, idx, 'spec', m, i))
             # the Spec stays the reference for the whole history (as long as the history respects the contract):
             # keep looking for steps where the implementation departs from it, also after the first divergence
             if s.startswith('+ ') and s[2:] != CA_RE.sub('', i) and nspec < 6 and not i.startswith('<missing'):
@@ -146,7 +160,7 @@ def compare_shard(suite, shard, outs, stats, divs, maxdiv=200, collect=None):
         if not broken and m != i and len(divs) < maxdiv:
             divs.append(Div(suite, header, cfg, ops, len(ops), 'tie', m, i))
 
-def run(ctx, seqrun, suites, collect=None):
+def run(ctx, seqrun, suites, collect=None, mode='seq', satlog=None):
     """suites: list of (name, model-generator-args). Returns (stats, divergences)."""
     stats = Stats(); divs = []
     for name, genargs in suites:
@@ -157,13 +171,13 @@ def run(ctx, seqrun, suites, collect=None):
         ctx.notes.setdefault('generators', []).append(f'model {" ".join(str(a) for a in genargs)}' + (f' [{p.stderr.strip()}]' if p.stderr.strip() else ''))
         shards, n = split_histories(hist, common.NCPU, ctx.work, name)
         with ThreadPoolExecutor(max_workers=common.NCPU) as ex:
-            for shard, outs in ex.map(run_one, [(seqrun, s) for s in shards]):
-                compare_shard(name, shard, outs, stats, divs, collect=collect)
+            for shard, outs in ex.map(run_one, [(seqrun, s, mode) for s in shards]):
+                compare_shard(name, shard, outs, stats, divs, collect=collect, satlog=satlog)
     return stats, divs
 
-def run_files(ctx, seqrun, name, files):
+def run_files(ctx, seqrun, name, files, mode='seq'):
     stats = Stats(); divs = []
     for f in files:
-        shard, outs = run_one((seqrun, f))
+        shard, outs = run_one((seqrun, f, mode))
         compare_shard(name, shard, outs, stats, divs)
     return stats, divs
